@@ -175,7 +175,7 @@ static Outcome run_fresh(const Plan & plan, const RunCtx & ctx, double timeout_s
       int efd = open(ep.c_str(), O_WRONLY | O_CREAT | O_TRUNC, 0644);
       if (efd >= 0) { dup2(efd, 2); close(efd); }
     }
-    suite_process_init(!g_fresh_runs && plan.hint("io_points", 0) == 0);
+    suite_process_init(!g_fresh_runs && plan.hint("io_points", 0) == 0 && plan.hint("pristine_ref", 0) == 0);
     Outcome o = execute(plan, ctx);
     std::string l = o.line() + "\n";
     ssize_t w = ::write(pfd[1], l.data(), l.size());
